@@ -14,6 +14,7 @@ mod ext_c11;
 mod ext_c14;
 mod ext_c04;
 mod ext_c05;
+mod ext_bin;
 mod enc;
 mod gen;
 mod interp;
@@ -22,6 +23,7 @@ mod props2;
 mod props_path;
 mod props_sim;
 mod props_set;
+mod props_bin;
 mod proto;
 mod rng;
 
